@@ -1,4 +1,6 @@
-\* as MC_quick with owner sequences 0..2: 997,731 distinct states, 113.6M generated, ~5 min with 8 workers
+\* 1 hash slot, identities {1,2} (2 optionally foreign to the node), 3 connections of one user,
+\* owner sequences 0..2, activity seconds 0..1, 1 pending token per incarnation, zero time / zero TTL included:
+\* 76,293 distinct states, 5.4M generated
 SPECIFICATION Spec
 CONSTANTS
   Slots = {1}
@@ -7,7 +9,7 @@ CONSTANTS
   Foreigns = {{}, {2}}
   Seqs = {0, 1, 2}
   Seens = {0, 1}
-  MaxTok = 2
+  MaxTok = 1
   Nows = {0, 2, 3}
   TTLs = {0, 1}
 VIEW View
